@@ -72,6 +72,13 @@ def mutator(rng, c, focus, h):
             h.append('upd v op=replace none=1 pix=%s' % (','.join(map(str, pix)) or '_'))
         else:
             h.append('upd v op=replace pix=%s val=%s' % (','.join(map(str, pix)) or '_', fc.val(rng)))
+        if c.covpix and rng.random() < 0.5:
+            # the view stays alive while the PARENT is written (inside a pre-allocated coverage pixel, so the
+            # shared storage is not reallocated): the view's counts must follow
+            k = rng.choice(c.covpix)
+            q = sorted(set(k * c.nfine + rng.randrange(c.nfine) for _ in range(rng.choice([1, 2, 3]))))
+            h += ['nvalid v', 'upd %s op=replace pix=%s val=%s' % (n, ','.join(map(str, q)), c.val(rng)),
+                  'nvalid v', 'valid v path=list', 'nvalid v path=area']
     elif r < 0.8:
         h.append(gen.scalar_op_line(rng, c, inplace=True))
     else:
